@@ -19,6 +19,14 @@ OPS = 'ARMCQPBX'
 UPD = {'C': 'Cancel', 'Q': 'UpdateQuantity', 'P': 'UpdatePrice', 'B': 'UpdatePriceAndQuantity', 'X': 'Replace'}
 
 
+def match_unwind_for(seq, single=5):
+    """loop unrolling of match_order inside a history: deeper for a single match, shallower when several matches
+    follow each other (end-to-end equalities over consecutive sweeps are what the solver cannot induct over; the
+    inductive cubes cover unbounded iteration counts)"""
+    m = seq.count('M')
+    return single if m <= 1 else (3 if m == 2 else 2)
+
+
 def sequences(depth, max_adds, alphabet='AMCQPBX', first_add=True, allow_readd=False):
     out = []
     alpha = alphabet + ('R' if allow_readd and 'R' not in alphabet else '')
